@@ -109,8 +109,13 @@ package core
 
 // at the end of input every explicit context must have been closed: on success no directive on the FINAL context chain
 // (the last directive included) still has an open parenthesis (eanc is the ancestor chain of the exit state)
+// C02 / C06 typestate: eofPending == 1 from the moment the current file has been read to its end until its end-of-file check
+// (placing the last directive, open parentheses) has run; the file may be left - its scanner popped - only with eofPending == 0,
+// so an end-of-file fault is reported in the file it is in, with that file's include chain.
+//@ ghostvar eofPending int
 //@ func (*JApiCore).processEOF
 //@   tag C06 C01 C02
+//@   ghostensures eofPending == 0
 //@   letpost eanc(k int) *directive.Directive : eanc(0) == core.currentContextDirective ; forall k :: k >= 0 ==> eanc(k+1) == (eanc(k) == nil ? nil : eanc(k).Parent)
 //@   requires CoreScanInv(core) && 1 <= core.scanner.curIndex
 //@   ensures [C06] ret == nil ==> exists k :: k >= 0 && eanc(k) == nil && (forall j :: 0 <= j && j < k ==> eanc(j) != nil && !eanc(j).HasExplicitContext)
@@ -345,6 +350,7 @@ package core
 // invariant) are not carried through the loop: they are unclaimed here, see DESIGN section 10.
 //@ func (*JApiCore).drainCurrentScanner
 //@   tag C02 C01
+//@   ghostensures ret == nil ==> eofPending == 1
 //@   requires core != nil && StackInv(core.scannersStack)
 //@   ensures core.scannersStack == old(core.scannersStack) && StackInv(core.scannersStack)
 //@   loop 1 invariant core != nil && core.scannersStack == old(core.scannersStack) && StackInv(core.scannersStack)
@@ -354,6 +360,7 @@ package core
 //@ func (*JApiCore).isScanningFinished
 //@   tag C01 C02 C08
 //@   requires core != nil && StackInv(core.scannersStack)
+//@   requires [C02] eofPending == 0
 //@   modifies core.scanner, core.scannersStack.stack, core.scannersStack.hashes, core.scannersStack.uniqueFiles, mapof(core.scannersStack.uniqueFiles)
 //@   ensures core.scannersStack == old(core.scannersStack) && StackInv(core.scannersStack)
 //@   ensures [C08] ret <==> old(len(core.scannersStack.stack)) == 0
